@@ -120,6 +120,7 @@ GENERIC_EQUIV = [
     {"name": "every single comparison written the other way round (a < b -> b > a, a == b -> b == a)", "kind": "equiv", "transform": "flipcmp"},
     {"name": "single-use temporaries folded into the statement that reads them", "kind": "equiv", "transform": "inline"},
     {"name": "first call-valued argument of every statement-level call given a name (_xtN = g(x); h(_xtN))", "kind": "equiv", "transform": "extract"},
+    {"name": "statements after an `if` whose body ends in return/raise/continue/break moved into its else", "kind": "equiv", "transform": "nestelse"},
 ]
 
 
